@@ -10,6 +10,7 @@ pub mod c02;
 pub mod c03;
 pub mod c05;
 pub mod c09;
+pub mod c13;
 pub mod selftest;
 
 #[derive(Clone, Debug)]
@@ -260,6 +261,7 @@ pub fn dispatch(cfg: &RunCfg, rep: &mut Report) -> bool {
         "C03" => c03::run(cfg, rep),
         "C05" => c05::run(cfg, rep),
         "C09" => c09::run(cfg, rep),
+        "C13" => c13::run(cfg, rep),
         "ST" => selftest::run(cfg, rep),
         _ => return false,
     }
